@@ -252,7 +252,7 @@ def replay_variant(b, variant):
                     else:
                         why = "stale or spurious version"
                 elif o["found"] and "tpath" in o:
-                    if o["tpath"] != w.origin(o["store"], o["key"]):
+                    if not o["store"].startswith("M") and o["tpath"] != w.origin(o["store"], o["key"]):
                         why = "template.path is not the origin that was read"
                     elif o["tname"] != os.path.basename(o["key"]):
                         why = "template.name is not the file name of its origin"
@@ -333,7 +333,7 @@ def run(tier: str) -> int:
         cleanup_gen()
     work = []
     variants = ["sync", "async", "mixed-tags"] if tier == "quick" else list(VARIANTS)
-    per_class = 4 if tier == "quick" else 40
+    per_class = 4 if tier == "quick" else 12
     for i, r in enumerate(results):
         ck.tlc(f"LoaderChain {tier} part {i}/{parts}", r)
         if r.violated:
@@ -345,6 +345,11 @@ def run(tier: str) -> int:
         for key in sorted(by_cfg, key=str):
             for b in _stratified(by_cfg[key], rnd, per_class):
                 work.append((b, variants))
+    budget = 6000 if tier == "quick" else 16000         # histories replayed (each in every variant)
+    ck.cov["histories_emitted"] = sum(len(r.emitted) for r in results)
+    if len(work) > budget:
+        work = rnd.sample(work, budget)
+    ck.cov["histories_replayed"] = len(work)
     t0 = time.time()
     _BASE = tempfile.mkdtemp(prefix="x05-", dir="/tmp")
     try:
@@ -385,7 +390,8 @@ def run(tier: str) -> int:
         "the built-in loaders ignore the namespace when locating a template; looking in '<namespace>/<name>' (strict, or falling back to '<name>') is the harness's "
         "own FileSystemLoader subclass in the documented 'load context' style - only its interplay with the cache key and the search order is claimed",
         "a caching loader inside a ChoiceLoader (the docs' overlay example) is asked for get_source only: its cache is inert, the answer is always current",
-        "template.path = the origin read (search path / name with extension; the key for a dictionary), template.name = its last component",
+        "template.path of a file-system template = the file that was read (search path / name with extension), template.name = the last component of the "
+        "origin (file name; last component of the dictionary key) - as the repository's own loader tests state; the path of a dictionary template is not claimed",
         "request names containing '/' together with a namespace_key (cache-key aliasing between 'n1/a' and ('a', n1)), ext edge cases (dot files, trailing dots), "
         "PackageLoader, symlinks and concurrent requests are outside this family (C22 / C23 / C24 cover the last three)",
     ]
